@@ -102,42 +102,42 @@ Ltac simp0 :=
        set_ret set_ctxc add_got set_subscribed set_unsub hold_t holdp holdk in_close past_done sub_pc xinv] in *.
 Ltac simp := simp0; unfold upd, upd2 in *; simp0.
 
-Ltac notHyp P := lazymatch goal with | _ : P |- _ => fail | _ => idtac end.
+Definition mark (P : Prop) : Prop := P.
+Definition xmark (b : sub) (x : xpc) : Prop := xinv b x.
+Ltac notHyp P := lazymatch goal with | _ : mark P |- _ => fail | _ => idtac end.
+Ltac derive P tac :=
+  notHyp P; let Hm := fresh "Hm" in let Hd := fresh "Hd" in
+  assert (Hm : mark P) by (unfold mark; tac); pose proof Hm as Hd; unfold mark in Hd.
 
 (* forward chaining of the invariant's consequences for the pcs mentioned in the context *)
 Ltac fwd1 I :=
   match goal with
   | H : is_none _ = true |- _ => apply is_none_true in H
   | H : holdp (pp ?st ?p) = true |- _ =>
-      let P := constr:(tmu st = Some (TPub p)) in notHyp P; assert P by exact (i_tmu1 _ I (TPub p) H)
+      derive (tmu st = Some (TPub p)) ltac:(exact (i_tmu1 _ I (TPub p) H))
   | H : holdk (kp ?st ?s ?j) = true |- _ =>
-      let P := constr:(tmu st = Some (TSub s j)) in notHyp P; assert P by exact (i_tmu1 _ I (TSub s j) H)
+      derive (tmu st = Some (TSub s j)) ltac:(exact (i_tmu1 _ I (TSub s j) H))
   | H : pp ?st ?p = _ |- _ =>
-      let P := constr:(tmu st = Some (TPub p)) in notHyp P;
-      assert P by (apply (i_tmu1 _ I (TPub p)); cbn [hold_t]; rewrite H; reflexivity)
+      derive (tmu st = Some (TPub p)) ltac:(apply (i_tmu1 _ I (TPub p)); cbn [hold_t]; rewrite H; reflexivity)
   | H : kp ?st ?s ?j = _ |- _ =>
-      let P := constr:(tmu st = Some (TSub s j)) in notHyp P;
-      assert P by (apply (i_tmu1 _ I (TSub s j)); cbn [hold_t]; rewrite H; reflexivity)
+      derive (tmu st = Some (TSub s j)) ltac:(apply (i_tmu1 _ I (TSub s j)); cbn [hold_t]; rewrite H; reflexivity)
   | H : kp ?st ?s ?j = KClose _ |- _ =>
-      let P := constr:(smu (subs st s) = Some j) in notHyp P;
-      assert P by (apply (i_smu1 _ I); rewrite H; reflexivity)
+      derive (smu (subs st s) = Some j) ltac:(apply (i_smu1 _ I); rewrite H; reflexivity)
   | H : in_close (kp ?st ?s ?j) = true |- _ =>
-      let P := constr:(smu (subs st s) = Some j) in notHyp P; assert P by exact (i_smu1 _ I _ _ H)
+      derive (smu (subs st s) = Some j) ltac:(exact (i_smu1 _ I _ _ H))
   | H : kp ?st ?s ?j = KClose ?x |- _ =>
-      let P := constr:(xinv (subs st s) x) in notHyp P;
-      assert P by exact (i_pc _ I _ _ _ H); cbn [xinv] in *
+      derive (xmark (subs st s) x) ltac:(exact (i_pc _ I _ _ _ H));
+      match goal with Hx : xmark _ _ |- _ => unfold xmark in Hx; cbn [xinv] in Hx end
   | H : pp ?st ?p = PSend ?s ?vis |- _ =>
-      let P := constr:(in_map (subs st s) = true) in notHyp P; assert P by exact (i_send _ I _ _ _ H)
+      derive (in_map (subs st s) = true) ltac:(exact (i_send _ I _ _ _ H))
   | H : in_map (subs ?st ?s) = true |- _ =>
-      let P := constr:(closed (subs st s) = false) in notHyp P; assert P by exact (i_map _ I _ H)
+      derive (closed (subs st s) = false) ltac:(exact (i_map _ I _ H))
   | H : cleared (subs ?st ?s) = true |- _ =>
-      let P := constr:(done (subs st s) = true /\ in_map (subs st s) = false) in notHyp P;
-      assert P by exact (i_clr _ I _ H)
+      derive (done (subs st s) = true /\ in_map (subs st s) = false) ltac:(exact (i_clr _ I _ H))
   | H : sub_pc (kp ?st ?s ?j) = true |- _ =>
-      let P := constr:(ret (subs st s) = false /\ j = 0) in notHyp P; assert P by exact (i_sub _ I _ _ H)
+      derive (ret (subs st s) = false /\ j = 0) ltac:(exact (i_sub _ I _ _ H))
   | H : kp ?st ?s ?j = _ |- _ =>
-      let P := constr:(ret (subs st s) = false /\ j = 0) in notHyp P;
-      assert P by (apply (i_sub _ I); rewrite H; reflexivity)
+      derive (ret (subs st s) = false /\ j = 0) ltac:(apply (i_sub _ I); rewrite H; reflexivity)
   | H : _ /\ _ |- _ => destruct H
   end.
 Ltac fwd I := repeat fwd1 I.
@@ -150,4 +150,17 @@ Proof.
   destruct t as [p | s j]; step_inv H; destruct q as [p0 | s0 j0]; simp; eqb_tac; simp; intros Hq;
     try discriminate; try reflexivity; try congruence.
   all: fwd I; try congruence.
+Qed.
+
+Lemma step_tmu2 : forall st t l st' br, inv st -> step VFixed st t l = Some (st', br) ->
+  forall q, tmu st' = Some q -> hold_t st' q = true.
+Proof.
+  intros st t l st' br I H q.
+  pose proof (i_tmu2 _ I) as T2.
+  destruct t as [p | s j]; step_inv H; destruct q as [p0 | s0 j0]; simp; eqb_tac; simp; intros Hq;
+    try discriminate; try reflexivity; try congruence.
+  all: fwd I; try congruence.
+  all: try (apply (T2 (TPub p0)); exact Hq).
+  all: try (apply (T2 (TSub s0 j0)); exact Hq).
   Show.
+
